@@ -37,24 +37,33 @@ Fixpoint slot_set (j : N) (p : pyval) (t : list (N * pyval)) : list (N * pyval) 
 Record mstate := {
   ms_ha : hamap;                       (* hass.states *)
   ms_svcs : list ename;                (* existing services *)
+  ms_esvcs : list ename;               (* those of them that have an entity_id parameter (entity services) *)
+  ms_svcargs : list (ident * ident);   (* State.service2args: (domain, service) pairs as of the last refresh
+                                          (State.get_service_params, run at start-up and by pyscript.reload) *)
   ms_globals : pyvars;                 (* global Python variables bound to plain objects *)
   ms_slots : list (N * pyval)          (* the global variables s0, s1, ... holding captured values *)
 }.
 Definition with_ha (st : mstate) (m : hamap) : mstate :=
-  {| ms_ha := m; ms_svcs := ms_svcs st; ms_globals := ms_globals st; ms_slots := ms_slots st |}.
+  {| ms_ha := m; ms_svcs := ms_svcs st; ms_esvcs := ms_esvcs st; ms_svcargs := ms_svcargs st;
+     ms_globals := ms_globals st; ms_slots := ms_slots st |}.
 Definition with_globals (st : mstate) (g : pyvars) : mstate :=
-  {| ms_ha := ms_ha st; ms_svcs := ms_svcs st; ms_globals := g; ms_slots := ms_slots st |}.
+  {| ms_ha := ms_ha st; ms_svcs := ms_svcs st; ms_esvcs := ms_esvcs st; ms_svcargs := ms_svcargs st;
+     ms_globals := g; ms_slots := ms_slots st |}.
 Definition with_slots (st : mstate) (s : list (N * pyval)) : mstate :=
-  {| ms_ha := ms_ha st; ms_svcs := ms_svcs st; ms_globals := ms_globals st; ms_slots := s |}.
-Definition with_svcs (st : mstate) (s : list ename) : mstate :=
-  {| ms_ha := ms_ha st; ms_svcs := s; ms_globals := ms_globals st; ms_slots := ms_slots st |}.
+  {| ms_ha := ms_ha st; ms_svcs := ms_svcs st; ms_esvcs := ms_esvcs st; ms_svcargs := ms_svcargs st;
+     ms_globals := ms_globals st; ms_slots := s |}.
+Definition with_svcs (st : mstate) (s e : list ename) : mstate :=
+  {| ms_ha := ms_ha st; ms_svcs := s; ms_esvcs := e; ms_svcargs := ms_svcargs st;
+     ms_globals := ms_globals st; ms_slots := ms_slots st |}.
+Definition with_svcargs (st : mstate) (t : list (ident * ident)) : mstate :=
+  {| ms_ha := ms_ha st; ms_svcs := ms_svcs st; ms_esvcs := ms_esvcs st; ms_svcargs := t;
+     ms_globals := ms_globals st; ms_slots := ms_slots st |}.
 
 (* static configuration of a run *)
 Record config := {
   cf_dev : deviations;
   cf_host : host;
-  cf_funcs : list ename;               (* Function.functions: pyscript's own dotted function names *)
-  cf_svcargs : list (ident * ident)    (* State.service2args: (domain, service) with an entity_id parameter *)
+  cf_funcs : list ename                (* Function.functions: pyscript's own dotted function names *)
 }.
 
 Inductive evalres := EV (p : pyval) | EName (* unresolved: EvalName *) | ERaise (e : exc).
@@ -88,10 +97,10 @@ Section Interp.
   Definition ast_name_dotted (parts : list ident) : evalres :=
     if function_get parts then EV PFunc
     else match parts with
-         | [_; _] => of_res (state_get (cf_host cf) (cf_svcargs cf) (ms_ha st) parts)
+         | [_; _] => of_res (state_get (cf_host cf) (ms_svcargs st) (ms_ha st) parts)
          | [_; _; _] =>
-             if state_exist (cf_svcargs cf) (ms_ha st) parts
-             then of_res (state_get (cf_host cf) (cf_svcargs cf) (ms_ha st) parts)
+             if state_exist (ms_svcargs st) (ms_ha st) parts
+             then of_res (state_get (cf_host cf) (ms_svcargs st) (ms_ha st) parts)
              else EName
          | _ => EName
          end.
@@ -100,7 +109,8 @@ Section Interp.
   Definition py_getattr (v : pyval) (k : ident) : res pyval :=
     match v with
     | PObj o => match alookup k o with Some x => Ok (PVal x) | None => Raise EAttributeError end
-    | PSnap _ d => snap_getattr d k
+    | PSnap _ d => snap_getattr (cf_host cf) d k
+    | PVal x => if h_pyattr (cf_host cf) x k then Ok PFunc else Raise EAttributeError   (* e.g. 'on'.count *)
     | _ => Raise EAttributeError
     end.
 
@@ -163,7 +173,7 @@ Section Interp.
             | [_; _; _] =>
                 match val with
                 | PVal v =>
-                    match state_setattr (cf_dev cf) (cf_host cf) now (cf_svcargs cf) (ms_ha st) parts v with
+                    match state_setattr (cf_dev cf) (cf_host cf) now (ms_svcargs st) (ms_ha st) parts v with
                     | Ok m => Ok (with_ha st m)
                     | Raise x => Raise x
                     end
@@ -246,7 +256,9 @@ Inductive extop :=
   | XSet (e : ename) (v : vid) (a : attrs)           (* hass.states.async_set *)
   | XRemove (e : ename)                              (* hass.states.async_remove *)
   | XReg (e : ename)                                 (* hass.services.async_register *)
-  | XUnreg (e : ename).                              (* hass.services.async_remove *)
+  | XRegM (e : ename)                                (* ... of a service with an entity_id parameter *)
+  | XUnreg (e : ename)                               (* hass.services.async_remove *)
+  | XRefresh.                                        (* State.get_service_params(): what start-up / pyscript.reload run *)
 
 Inductive step := SExt (x : extop) | SScript (locals : pyvars) (o : op).
 
@@ -283,30 +295,33 @@ Definition model_op (cf : config) (now : N) (locals : pyvars) (st : mstate) (o :
   match o with
   | ORead e cap =>
       if dn_len_ok e then capture st cap (aeval_dn cf locals st e) else (Raise EUnmodelled, st)
-  | OGet nm cap => capture st cap (of_res (state_get H (cf_svcargs cf) (ms_ha st) nm))
+  | OGet nm cap => capture st cap (of_res (state_get H (ms_svcargs st) (ms_ha st) nm))
   | OAssign e rhs =>
       if dn_len_ok e then lift_st st (assign_dn cf locals st now e (eval_vexpr st rhs)) else (Raise EUnmodelled, st)
   | OSet nm value nattr kw =>
       let v := match value with Some x => eval_vexpr st x | None => PVal v_none end in
       let na := match nattr with Some (Some a) => Some a | _ => None end in
       lift_ha st (state_set H now (ms_ha st) nm v na kw)
-  | OSetattr nm v => lift_ha st (state_setattr (cf_dev cf) H now (cf_svcargs cf) (ms_ha st) nm v)
+  | OSetattr nm v => lift_ha st (state_setattr (cf_dev cf) H now (ms_svcargs st) (ms_ha st) nm v)
   | ODel e => if dn_len_ok e then lift_st st (delete_dn cf locals st now e) else (Raise EUnmodelled, st)
   | ODelete nm => lift_ha st (state_delete H now (ms_ha st) nm)
-  | OExist nm => (Ok (PVal (h_bool H (state_exist (cf_svcargs cf) (ms_ha st) nm))), st)
+  | OExist nm => (Ok (PVal (h_bool H (state_exist (ms_svcargs st) (ms_ha st) nm))), st)
   | OGetattr nm => (state_getattr (ms_ha st) (inr nm), st)
   | OGetattrSlot j => (state_getattr (ms_ha st) (inl (slot_get j (ms_slots st))), st)
   | ONames dom => (state_names (ms_ha st) dom, st)
   | OReadSlot j => (Ok (slot_get j (ms_slots st)), st)
-  | OReadSlotAttr j k => (py_getattr (slot_get j (ms_slots st)) k, st)
+  | OReadSlotAttr j k => (py_getattr cf (slot_get j (ms_slots st)) k, st)
   end.
 
 Definition ext_op (H : host) (now : N) (st : mstate) (x : extop) : mstate :=
   match x with
   | XSet e v a => with_ha st (ha_async_set H now (ms_ha st) e v a)
   | XRemove e => with_ha st (snd (ha_async_remove (ms_ha st) e))
-  | XReg e => if mem_ename e (ms_svcs st) then st else with_svcs st (ms_svcs st ++ [e])
+  | XReg e => if mem_ename e (ms_svcs st) then st else with_svcs st (ms_svcs st ++ [e]) (ms_esvcs st)
+  | XRegM e => if mem_ename e (ms_svcs st) then st else with_svcs st (ms_svcs st ++ [e]) (ms_esvcs st ++ [e])
   | XUnreg e => with_svcs st (filter (fun e' => negb (ename_eqb e e')) (ms_svcs st))
+                          (filter (fun e' => negb (ename_eqb e e')) (ms_esvcs st))
+  | XRefresh => with_svcargs st (ms_esvcs st)        (* the table is rebuilt from the entity services existing now *)
   end.
 
 (* one step: output seen by the script (None for external steps) and the state afterwards *)
